@@ -192,6 +192,13 @@ def run_sequence(b, phys, laws=False):
                     return _mis("reset(c>capacity).changed-state", n, op, list(before), list(after), phys), nd
             else:
                 pilot, period, z = m.pilot(op["p"]), m.period(op["d"]), m.draw(op["z"])
+                if pilot == 0 and n % 2 == 0:
+                    # the EV moves to another, idle station before a period without current (no reset in between): what it
+                    # reports afterwards is that period's rate, 0 A - not what it drew at the station it left
+                    evse.unplug()
+                    evse = EVSE("E-m%d" % n, max_rate=BIG_RATE)
+                    ev.update_station_id(evse.station_id)
+                    evse.plugin(ev)
                 with patch("numpy.random.normal", return_value=z):
                     rate = A.charge(pilot, m.V, period)
                     evse.set_pilot(pilot, m.V, period)
